@@ -87,6 +87,8 @@ def main(argv):
                 missed += 1
             elif hits:
                 print("%-8s caught %s" % (sid, hits[0]))
+            elif json.load(open(os.path.join(SEEDED, sid, "meta.json"))).get("known_miss"):
+                print("%-8s MISSED (recorded as a known miss in its meta.json and in DESIGN 10.4)" % sid)
             else:
                 print("%-8s MISSED" % sid)
                 missed += 1
